@@ -91,21 +91,36 @@ Fixpoint last_symlinks (opts : list cli_option) (acc : symval) : symval :=
    files *)
 
 Definition path := N.
-(* gen: bumped whenever the path gets a new inode (the harness sees (st_ino, st_ctime_ns)) *)
-Inductive node := NFile (c : str) (gen : N) | NLink (t : path) | NDir.
+(* gen: bumped whenever the path gets a new inode (the harness sees (st_ino, st_ctime_ns));
+   NBin: a regular file whose bytes are not valid UTF-8 (read_file raises UnicodeDecodeError) *)
+Inductive node := NFile (c : str) (gen : N) | NBin (gen : N) | NLink (t : path) | NDir.
 Definition fs := path -> option node.
 Definition upd (f : fs) (p : path) (v : option node) : fs := fun q => if (q =? p)%N then v else f q.
 
 Definition islink (f : fs) (p : path) : bool := match f p with Some (NLink _) => true | _ => false end.
-(* links are one level deep in the model (a link's target is not a link) *)
-Definition realpath (f : fs) (p : path) : path := match f p with Some (NLink t) => t | _ => p end.
-Definition read_path (f : fs) (p : path) : option str :=
-  match f p with
-  | Some (NFile c _) => Some c
-  | Some (NLink t) => match f t with Some (NFile c _) => Some c | _ => None end
-  | _ => None
+
+(* symlink chains: the kernel follows at most 40 links (ELOOP beyond, and on a loop); None = ELOOP.
+   The result is the first path of the chain that is not a symlink (it may not exist). *)
+Definition max_hops : nat := 41.
+Fixpoint resolve (fuel : nat) (f : fs) (p : path) : option path :=
+  match fuel with
+  | O => None
+  | S k => match f p with Some (NLink t) => resolve k f t | _ => Some p end
   end.
-Definition isfile (f : fs) (p : path) : bool := match read_path f p with Some _ => true | None => false end.
+(* Filename.realpath = os.path.realpath; only called on names for which isfile held *)
+Definition realpath (f : fs) (p : path) : path := match resolve max_hops f p with Some q => q | None => p end.
+(* open(p).read() follows the chain *)
+Definition read_path (f : fs) (p : path) : option str :=
+  match resolve max_hops f p with
+  | Some q => match f q with Some (NFile c _) => Some c | _ => None end
+  | None => None
+  end.
+(* os.path.isfile follows the chain; a binary file is a file too *)
+Definition isfile (f : fs) (p : path) : bool :=
+  match resolve max_hops f p with
+  | Some q => match f q with Some (NFile _ _) | Some (NBin _) => true | _ => false end
+  | None => false
+  end.
 
 (* ---------------------------------------------------------------------------------------------
    Modifier: lazily computed, cached input / output of one file
